@@ -111,6 +111,12 @@ def main():
         sum(p['_batch']['nontrivial'] for p in spec['parts']), total_err, total_viol))
     if total_viol:
         return 1
+    unconfirmed = sum(p['_batch']['agg'].get('unconfirmed', 0) for p in spec['parts'])
+    if unconfirmed:
+        # a violation was observed in the batch and could not be reproduced from its replay file: neither a
+        # verdict nor a pass
+        print('HARNESS-ERROR: %d violation signature(s) seen in the batch did not replay' % unconfirmed)
+        return 2
     if total_err > max(3, runs // 50):
         print('HARNESS-ERROR: too many harness errors (%d of %d runs)' % (total_err, runs))
         return 2
